@@ -129,7 +129,7 @@ def answer (st : DState) (line : String) : DState × String :=
     let r := Vita.Murmur.hash128 ((fromHex h).map UInt8.ofNat)
     (st, s!"{r.d0.toNat} {r.d1.toNat}")
   | ["murmursyn", h] =>
-    let r := GenPack.murmur.run ((fromHex h).map UInt8.ofNat)
+    let r := GenPack.murmur.run ((fromHex h).map UInt8.ofNat) GenPack.murmurDefaultSeed.toUInt64
     (st, s!"{r.d0.toNat} {r.d1.toNat}")
   | ["combinesyn", a0, a1, h0, h1] =>
     match [a0, a1, h0, h1].mapM String.toNat? with
